@@ -1027,3 +1027,10 @@ def vec_clone_from(it, args, n, f):
         dst.obj.base = src.obj.base
         return UnitV()
     raise Unrecognised("clone_from %r <- %r" % (dst, src))
+
+
+@model("<std::option::Option<T> as std::cmp::PartialEq>::eq", doc="equality of two options: one lazy boolean over their printed forms")
+def opt_partial_eq(it, args, n, f):
+    a = it.force(deref(it, args[0]))
+    b = it.force(deref(it, args[1]))
+    return SymV("opt_eq(%r,%r)" % (a, b))
